@@ -115,6 +115,17 @@ func concretise(c *tcase) string {
 	case "exh":
 		var sb strings.Builder
 		for _, s := range c.Syms {
+			if w, isTok := strings.CutPrefix(s, "t:"); isTok && w != "" {
+				switch w {
+				case "STR":
+					w = `"s"`
+				case "PROTO3":
+					w = `"proto3"`
+				}
+				sb.WriteString(w) // token symbol: the word followed by one space
+				sb.WriteByte(' ')
+				continue
+			}
 			v, ok := concrete[s]
 			if !ok {
 				fatal("unknown symbol %q", s)
